@@ -21,6 +21,7 @@ ASSUMPTIONS = [
     "well-formed HTML = the forest grammar of this module (balanced tags, double-quoted attribute "
     "values, void and self-closing elements, comments, declarations, PIs, char/entity references)",
     "attribute filters with an empty-string value are not queried (missing attributes read as '')",
+    "canonical tag-internal spelling only: lower-case names, one blank between attributes, no blank before '/>' (the tokenizer normalises case and white space inside tags; HTML itself is case-insensitive there)",
     "termination = 60 s deadline per call",
 ]
 
@@ -192,6 +193,9 @@ ATTRS = [
     (' k="v"', (("k", "v"),)),
     (' class="c d"', (("class", "c d"),)),
     (' k="" j="x y"', (("k", ""), ("j", "x y"))),
+    (' disabled', (("disabled", None),)),
+    (' k="x>y" j="it\'s"', (("k", "x>y"), ("j", "it's"))),
+    (' k="a&amp;b"', (("k", "a&b"),)),
 ]
 LEAVES = [
     ("x", ("Data", "", (), "x", ())),
@@ -289,8 +293,10 @@ class ForestSystem(System):
         root = tokenize_html(text)
         out = str(root)
         if out != text:
+            # narrow classification: the stdlib tokenizer decodes character references inside attribute values irreversibly
+            charref_attr = "&amp;" in text and out == text.replace('k="a&amp;b"', 'k="a&b"')
             viol.append(
-                violation("roundtrip", {"clause": "roundtrip"},
+                violation("roundtrip", {"clause": "roundtrip", **({"cause": "charref-in-attribute-value"} if charref_attr else {})},
                           f"render(parse(s)) = {out!r} != s = {text!r}", text=text, observed=out)
             )
         exp = merge_data(_tuplify(specs))
@@ -424,6 +430,10 @@ class HistorySystem(System):
         self.description = (f"every string of length <= {self.n} over {self.alpha!r} (+ {len(self.extra)} unfinished constructs) is parsed first, "
                             f"then each of {len(PROBES)} well-formed documents: exact round trip and the generator's tree, as in a fresh process")
 
+    def prepare(self, ctx):
+        # what each probe renders to when it is parsed in a pristine process (the forest system judges these renderings themselves)
+        self.base = {p: str(tokenize_html(p)) for p in PROBES}
+
     def bounds(self):
         return {"prefix_len": self.n, "probes": len(PROBES)}
 
@@ -449,7 +459,7 @@ class HistorySystem(System):
         for probe in PROBES:
             n += 1
             got = str(tokenize_html(probe))
-            if got != probe and not viol:
+            if got != getattr(self, "base", {}).get(probe, probe) and not viol:
                 viol.append(violation("history", {"clause": "history-roundtrip"},
                                       f"after parsing {first!r}, render(parse({probe!r})) = {got!r}", first=first, text=probe, observed=got))
         again = str(tokenize_html(first)) if not r0.startswith("EXC") else r0
